@@ -418,3 +418,70 @@ func VPH_scan() {
 	}
 	vp_Reach("ok")
 }
+
+type vpGrouper struct {
+	seen *[]string
+}
+
+func (g vpGrouper) Categorize(refname string) (bool, []RefGroupSymbol) {
+	*g.seen = append(*g.seen, refname)
+	walk := len(refname)%2 == 0
+	if walk {
+		return true, []RefGroupSymbol{"", "g"}
+	}
+	return false, []RefGroupSymbol{"ignored"}
+}
+func (g vpGrouper) Groups() []RefGroup { return nil }
+
+// VPH_collectReferences (C07, C10): every reference git lists becomes exactly
+// one root, in order, carrying what the grouper said; a failing listing
+// yields an error and no partial list.
+func VPH_collectReferences() {
+	if vp_Native() {
+		vp_Reach("end")
+		return
+	}
+	names := []string{"refs/heads/a", "refs/heads/bb", "refs/tags/v", "refs/x"}
+	n := vp_Choice("refs", len(names)+1)
+	fault := vp_Choice("fault", 3) // 0 none, 1 NewReferenceIter fails, 2 listing fails after faultPos refs
+	faultPos := vp_Choice("faultpos", n+1)
+	i := 0
+	vp_Stub("(*github.com/github/git-sizer/git.Repository).NewReferenceIter", func(r *git.Repository, ctx context.Context) (*git.ReferenceIter, error) {
+		if fault == 1 {
+			return nil, errVPFault
+		}
+		return &git.ReferenceIter{}, nil
+	})
+	vp_Stub("(*github.com/github/git-sizer/git.ReferenceIter).Next", func(it *git.ReferenceIter) (git.Reference, bool, error) {
+		if fault == 2 && i == faultPos {
+			return git.Reference{}, false, errVPFault
+		}
+		if i >= n {
+			return git.Reference{}, false, nil
+		}
+		r := git.Reference{Refname: names[i], OID: vpMkOID('c', i), ObjectType: "commit", ObjectSize: counts.Count32(100 + i)}
+		i++
+		return r, true, nil
+	})
+	var seen []string
+	roots, err := CollectReferences(context.Background(), &git.Repository{}, vpGrouper{&seen})
+	if fault != 0 {
+		vp_Assert(err != nil && roots == nil, "a failing reference listing is an error, no partial list")
+		vp_Reach("fault")
+		return
+	}
+	vp_Assert(err == nil && len(roots) == n, "one root per listed reference")
+	for k := 0; k < n && k < len(roots); k++ {
+		r := roots[k]
+		vp_Assert(r.Name() == names[k] && r.OID() == vpMkOID('c', k), "references in git's order")
+		vp_Assert(r.Walk() == (len(names[k])%2 == 0), "selection as decided by the grouper")
+		vp_Assert(len(seen) > k && seen[k] == names[k], "each reference categorised once, in order")
+		if r.Walk() {
+			vp_Assert(len(r.Groups()) == 2, "groups as decided by the grouper")
+		} else {
+			vp_Assert(len(r.Groups()) == 1 && r.Groups()[0] == "ignored", "an unselected reference carries only Ignored")
+		}
+	}
+	vp_Assert(len(seen) == n, "no reference categorised twice")
+	vp_Reach("end")
+}
